@@ -26,10 +26,10 @@ def focus(c):
 def run(chk):
     wal = [{"k": "exec", "sql": "PRAGMA wal=ON"}]
     # WAL off
-    relrun.standard(chk, relevant, signature, focus=focus, quick=(3, 1800), thorough=(4, 30000), walks_quick=(20, 25))
+    relrun.standard(chk, relevant, signature, focus=focus, quick=(3, 1800), thorough=(4, 30000), walks_quick=(120, 12), walks_thorough=(1200, 20), weighted_walks=True)
     cov_off = chk.cov
     # WAL on (the mode is not persisted: it is switched on again after every reopen)
-    relrun.standard(chk, relevant, signature, focus=focus, config_ops=wal, reopen_ops=wal, quick=(3, 1800), thorough=(4, 30000), walks_quick=(20, 25))
+    relrun.standard(chk, relevant, signature, focus=focus, config_ops=wal, reopen_ops=wal, quick=(3, 1800), thorough=(4, 30000), walks_quick=(120, 12), walks_thorough=(1200, 20), weighted_walks=True)
     cov_on = chk.cov
     chk.cov = dict(cov_on)
     for k in ("traces_validated_against_impl", "behaviours_replayed", "random_walk_steps_replayed", "conforming", "abandoned_prefix_diverged"):
